@@ -135,7 +135,7 @@ class EvalCtx(object):
         else:
             result.append(node)  # type: ignore[arg-type]
 
-        if cname:
+        if cname and not any(cname is r for r in result):
             return self.declarations(cname, result)
 
         return result
